@@ -179,11 +179,15 @@ class MetadorMeta:
 
     def _set_raw(self, schema_ref: PluginRef, obj: MetadataSchema) -> None:
         """Store metadata object as instance of passed schema at this node."""
+        # everything that can fail is done before the container is touched:
+        # serialize the object and make sure the schema is registered in the TOC
+        obj_dat = bytes(obj)
+        self._mc.metador._links._toc_schemas._register(schema_ref)
         # reserve UUID, construct dataset path and store metadata object
         obj_uuid = self._mc.metador._links.fresh_uuid()
         obj_path = f"{self._base_dir}/{_ep_name_for(schema_ref)}={str(obj_uuid)}"
         # store object
-        self._mc.__wrapped__[obj_path] = bytes(obj)
+        self._mc.__wrapped__[obj_path] = obj_dat
         obj_node = self._mc.__wrapped__[obj_path]
         assert isinstance(obj_node, H5DatasetLike)
         stored_obj = StoredMetadata(uuid=obj_uuid, schema=schema_ref, node=obj_node)
@@ -636,26 +640,30 @@ class TOCSchemas:
         if schema_ref in self._schemas:
             return  # nothing to do
 
-        # store json schema
+        # collect all information first (schema export or provider lookup can fail),
+        # so nothing is stored unless the schema can be registered completely
         schema_cls = schemas.get(schema_ref.name, schema_ref.version)
         jsonschema_dat = schema_cls.schema_json().encode("utf-8")
+        parents = schemas.parent_path(schema_ref.name, schema_ref.version)
+        parents_dat: bytes = json.dumps(list(map(lambda x: x.dict(), parents))).encode(
+            "utf-8"
+        )
+        env_pkg_info: Optional[PluginPkgMeta] = None
+        if not self._pkgs._providers.get(schema_ref, []):
+            env_pkg_info = schemas.provider(schema_cls.Plugin.ref())
+
+        # store json schema
         jsonschema_path = self._jsonschema_path_for(schema_ref)
         self._raw[jsonschema_path] = jsonschema_dat
 
         # store parent schema refs
         compat_path = f"{self._schema_path_for(schema_ref)}/compat"
-        parents = schemas.parent_path(schema_ref.name, schema_ref.version)
-        parents_dat: bytes = json.dumps(list(map(lambda x: x.dict(), parents))).encode(
-            "utf-8"
-        )
-
         self._raw[compat_path] = parents_dat
         self._schemas.add(schema_ref)
         self._update_parents_children(schema_ref, parents)
 
         # add providing package (if no stored package provides it)
-        if not self._pkgs._providers.get(schema_ref, []):
-            env_pkg_info: PluginPkgMeta = schemas.provider(schema_cls.Plugin.ref())
+        if env_pkg_info is not None:
             pkg_name_ver = (str(env_pkg_info.name), env_pkg_info.version)
             self._pkgs._register(pkg_name_ver, env_pkg_info)
             self._used[pkg_name_ver] = set()
